@@ -82,7 +82,8 @@ def get_basic_branch_results(net, branch_pit, node_pit):
                       "from_nodes": from_nodes, "to_nodes": to_nodes,  "temp_from": t0, "temp_to": t1,
                       "reynolds": branch_pit[:, RE], "lambda": branch_pit[:, LAMBDA], "pl": branch_pit[:, PL],
                       "t_outlet": t_outlet, "qext": branch_pit[:, QEXT], "loss_coeff": branch_pit[:, LC],
-                      "dp_frict_loss": branch_pit[:, DP_FRICT_LOSS]}
+                      "dp_frict_loss": branch_pit[:, DP_FRICT_LOSS],
+                      "from_node_t_switched": branch_pit[:, FROM_NODE_T_SWITCHED].astype(np.bool_)}
     return branch_results
 
 
@@ -264,8 +265,9 @@ def extract_branch_results_with_internals(net, branch_results, table_name,
             first_section_table_order = last_section_table_order - sections_table_order.astype(int) + 1
             indices_last_section = last_section_table_order[placement_table][connected_ind]
             indices_first_section = first_section_table_order[placement_table][connected_ind]
-            # the fluid leaves a branch through its first section if it flows against the branch orientation
-            reverse_flow = branch_results["mf_from"][f:t][indices_last_section] < 0
+            # the fluid leaves a branch through its first section if it flows against the branch orientation (flow
+            # direction as determined for the heat transfer calculation, so that zero flows do not count as reversed)
+            reverse_flow = branch_results["from_node_t_switched"][f:t][indices_last_section]
             indices_outlet_section = np.where(reverse_flow, indices_first_section, indices_last_section)
             # hint: idx_pit[placement_table] should result in the indices as ordered in the table
             pt = placement_table[connected_ind]
